@@ -21,6 +21,9 @@ Go code modelled (one model step = one critical section of `c.mux`, or one runti
   same after every response), the HTTP `WriteTimeout` (`OnComplete`: `SetWriteDeadline(now+WriteTimeout)`), WS
   keep-alive (`upgrader.go:540`, `conn.go:234`): the relative ops `ka n` / `wto n`.
 
+(The write-path owner proves the same `Write/Writev/flush` tail steps on the full write-path model:
+`Properties/ConnTimer.lean`, `ConnFull.timer_cleared_by_write/_writev/_flush`, `close_stops_timer`.)
+
 The clock is logical (`tick n`). Ghost state (never read by the step function's control flow): `T.f`, the deadline
 *in force* according to the property's wording (set/renew ⇒ that time; clear, a write or flush that empties the
 backlog (write direction), close ⇒ none), the record of every started callback, and the record that closed the conn.
